@@ -159,3 +159,14 @@ Definition tpl_remap (is_pauli : bool) (perm : list nat) (total' : Matc) (p : pc
   end.
 
 End Superop.
+
+(* The index arrays exactly as the source computes them (Basis.ggm and ggm_expand):
+     j = np.repeat(np.arange(d-1), np.arange(d-1, 0, -1))
+     k = np.arange(1, n_sym+1) - (j*(2*d - j - 3)/2).astype(int),   n_sym = int(d*(d-1)/2)
+   Plain nat code (not part of the Ops-polymorphic model); Proofs/SuperopEx.v checks that it produces
+   the pair list [ggm_pairs] used by the model (machine-checked for every d < 64).                    *)
+Definition ggm_j_src (d : nat) : list nat := concat (build (d - 1) (fun j => repeat j (d - 1 - j))).
+Definition ggm_k_src (d : nat) : list nat :=
+  map (fun tj => (fst tj - (snd tj * (2 * d - snd tj - 3)) / 2)%nat)
+      (combine (seq 1 (d * (d - 1) / 2)) (ggm_j_src d)).
+Definition ggm_pairs_src (d : nat) : list (nat * nat) := combine (ggm_j_src d) (ggm_k_src d).
